@@ -223,6 +223,10 @@ func (m *c20Mon) OnRestart(n *cluster.SNode) {
 
 func c20Gen(rng *core.Rng, tier string) *harness.Plan {
 	p := &harness.Plan{Seed: rng.Uint64(), Params: map[string]int64{}}
+	if rng.Chance(0.5) {
+		c20InjectGen(rng, tier, p) // finalized path, see c20inject.go
+		return p
+	}
 	baseClusterParams(rng, p)
 	dur := time.Duration(40+rng.IntN(30)) * time.Second
 	if tier == "thorough" {
@@ -246,6 +250,9 @@ func c20Gen(rng *core.Rng, tier string) *harness.Plan {
 }
 
 func c20Exec(p *harness.Plan) *harness.Outcome {
+	if p.P("inject_refs", 0) == 1 {
+		return c20InjectExec(p)
+	}
 	r, err := newClusterRun("C20", p)
 	if err != nil {
 		o := harness.NewOutcome()
